@@ -64,7 +64,8 @@ type stmt struct {
 }
 
 type progCase struct {
-	Mode         string      `json:"mode"` // eval | load | error | cancel | sessions | recover
+	Mode         string      `json:"mode"`            // eval | load | error | cancel | sessions | recover | lazy
+	Stdin        int         `json:"stdin,omitempty"` // > 0: the session's standard input is a CSV table with that many records
 	CPU          int         `json:"cpu"`
 	Tables       []tableSpec `json:"tables"`
 	Progs        [][]stmt    `json:"progs"`                // one statement list per session
@@ -1118,7 +1119,7 @@ func (x *g) statement(weights []int) []stmt {
 	return out
 }
 
-var allShapes = []int{11, 16, 12, 6, 8, 7, 12, 8, 9, 12, 5, 9}
+var allShapes = []int{11, 16, 12, 6, 8, 7, 12, 8, 9, 12, 8, 9}
 
 // ---- tables ---------------------------------------------------------------
 
@@ -1408,6 +1409,204 @@ func nvl(s, d string) string {
 		return d
 	}
 	return s
+}
+
+// ---- lazily loaded sources -------------------------------------------------
+//
+// Sources that are loaded (and cached in the transaction) when they are first referenced: remote
+// tables served by the worker's loopback HTTP server ({{URL}} is replaced by its address), DATA::
+// strings, inline CSV/JSON, STDIN, and files nobody has read yet. The lazy check references them
+// for the first time inside subqueries that several goroutines evaluate per record.
+
+// lazyCell: the content of every lazily loaded source (columns id,k,g,v,s); k is below 5 so that
+// `r.k = a.k % 5` matches.
+func lazyCell(i, col int) string {
+	switch col {
+	case 0:
+		return fmt.Sprint(i + 1)
+	case 1:
+		return fmt.Sprint(i % 5)
+	case 2:
+		return fmt.Sprintf("g%d", i%3)
+	case 3:
+		return fmt.Sprint((i * 7) % 11)
+	}
+	return fmt.Sprintf("s%d", i)
+}
+
+var lazyCols = []string{"id", "k", "g", "v", "s"}
+
+func lazyCSV(n int) string {
+	var b strings.Builder
+	b.WriteString(strings.Join(lazyCols, ",") + "\n")
+	for i := 0; i < n; i++ {
+		for c := range lazyCols {
+			if c > 0 {
+				b.WriteString(",")
+			}
+			b.WriteString(lazyCell(i, c))
+		}
+		b.WriteString("\n")
+	}
+	return b.String()
+}
+
+func lazyJSON(n int) string {
+	var b strings.Builder
+	b.WriteString("[")
+	for i := 0; i < n; i++ {
+		if i > 0 {
+			b.WriteString(",")
+		}
+		fmt.Fprintf(&b, `{"id":%s,"k":%s,"g":"%s","v":%s,"s":"%s"}`, lazyCell(i, 0), lazyCell(i, 1), lazyCell(i, 2), lazyCell(i, 3), lazyCell(i, 4))
+	}
+	b.WriteString("]")
+	return b.String()
+}
+
+var lazyKinds = []string{"url_csv_bare", "url_csv_fn", "url_csv_fmt", "url_json_bare", "url_json_fmt", "url_plain", "data_csv", "data_json", "csv_inline", "json_inline", "stdin", "file_new", "file_url", "file_inline"}
+
+// lazySource returns the FROM expression (with alias r) of a source of the given kind.
+func (x *g) lazySource(kind string, t4 tableSpec) (string, string) {
+	n := x.rng("lazyRows", 3, 30)
+	tag := x.pick("lazyTag", []string{"a", "a", "b", "c"})
+	switch kind {
+	case "url_csv_bare":
+		return fmt.Sprintf("{{URL}}/csv/%d/%s.csv r", n, tag), kind
+	case "url_csv_fn":
+		return fmt.Sprintf("URL::('{{URL}}/csv/%d/%s.csv') r", n, tag), kind
+	case "url_csv_fmt":
+		return fmt.Sprintf("CSV(',', URL::('{{URL}}/csv/%d/%s.csv')) r", n, tag), kind
+	case "url_json_bare":
+		return fmt.Sprintf("{{URL}}/json/%d/%s.json r", n, tag), kind
+	case "url_json_fmt":
+		return fmt.Sprintf("JSON('', URL::('{{URL}}/json/%d/%s.json')) r", n, tag), kind
+	case "url_plain":
+		return fmt.Sprintf("{{URL}}/plain/%d/%s r", n, tag), kind
+	case "data_csv":
+		return "CSV(',', DATA::('" + lazyCSV(n) + "')) r", kind
+	case "data_json":
+		return "JSON('', DATA::('" + lazyJSON(n) + "')) r", kind
+	case "csv_inline":
+		return "CSV_INLINE(',', '" + lazyCSV(n) + "') r", kind
+	case "json_inline":
+		return "JSON_INLINE('', '" + lazyJSON(n) + "') r", kind
+	case "stdin":
+		return "STDIN r", kind
+	case "file_url":
+		if t4.Format == "CSV" || t4.Format == "TSV" || t4.Format == "JSON" || t4.Format == "JSONL" {
+			return "file:./" + t4.fileName() + " r", kind
+		}
+	case "file_inline":
+		if t4.Format == "CSV" || t4.Format == "TSV" || t4.Format == "JSON" || t4.Format == "JSONL" {
+			return "INLINE::('" + t4.fileName() + "') r", kind
+		}
+	}
+	return t4.ref() + " r", "file_new"
+}
+
+func genLazy(t *rapid.T) progCase {
+	big, small := genTables(t, mixedFilePct(), fileFormats)
+	// the sources are re-read (inline files, DATA::) or re-parsed (remote tables) for every outer
+	// record: two to four workers are enough, keep the outer tables at the lower end
+	for i := range big {
+		if big[i].Format == "" {
+			big[i].N = 160 + big[i].N%120
+		} else {
+			big[i].N = 301 + big[i].N%40
+		}
+	}
+	t4 := genSpec(t, "t4", fw.Range(t, "nT4", 3, 30), fw.PickU(t, "t4Format", fileFormats))
+	t4.KMod = 5
+	x := &g{t: t, mode: "lazy", big: big, small: small}
+	c := progCase{Mode: "lazy", CPU: genCPU(t), Tables: append(append(big, small), t4), KeepGoing: true}
+	var prog []stmt
+	n := fw.Range(t, "nLazyStmts", 1, 2)
+	for i := 0; i < n; i++ {
+		x.ops = map[string]bool{}
+		tb := x.bigTable("lazyOuter")
+		kind := fw.PickU(t, "lazyKind", lazyKinds)
+		if fw.Pct(t, "lazyPreferURL", 35) {
+			kind = fw.PickU(t, "lazyURLKind", lazyKinds[:6])
+		}
+		src, kind := x.lazySource(kind, t4)
+		x.op("lazy:" + kind)
+		if kind == "stdin" {
+			c.Stdin = fw.Range(t, "stdinRows", 3, 30)
+		}
+		// a second source: the same expression again (the same URL in two subqueries) or another one
+		src2, kind2 := src, kind
+		if fw.Pct(t, "lazyOtherSecond", 50) {
+			src2, kind2 = x.lazySource(fw.PickU(t, "lazyKind2", lazyKinds), t4)
+			if kind2 == "stdin" {
+				c.Stdin = fw.Range(t, "stdinRows2", 3, 30)
+			}
+		}
+		fail := ""
+		var sqls []string
+		shape := fw.Weighted(t, "lazyShape", []int{16, 14, 14, 16, 10, 8, 6, 6, 5, 5})
+		switch shape {
+		case 0:
+			x.op("in_subquery")
+			sqls = []string{"SELECT a.id, " + x.any("a") + " AS c1 FROM " + tb.ref() + " a WHERE a.k % 5 IN (SELECT r.k FROM " + src + " WHERE r.v > " + fmt.Sprint(x.rng("lazyConst", 0, 6)) + ")"}
+		case 1:
+			x.op("exists_subquery")
+			sqls = []string{"SELECT a.id FROM " + tb.ref() + " a WHERE " + x.pick("lazyNot", []string{"", "NOT "}) + "EXISTS (SELECT 1 FROM " + src + " WHERE r.k = a.k % 5 AND r.v < a.v)"}
+		case 2:
+			x.op("scalar_subquery")
+			sqls = []string{"SELECT a.id, (SELECT MAX(r.v) FROM " + src + " WHERE r.k = a.k % 5) AS m, " + x.any("a") + " AS c1 FROM " + tb.ref() + " a"}
+		case 3:
+			x.op("two_subqueries")
+			x.op("lazy:" + kind2)
+			sqls = []string{"SELECT a.id, (SELECT COUNT(*) FROM " + src2 + " WHERE r.k = a.k % 5) AS n FROM " + tb.ref() + " a WHERE a.k % 5 IN (SELECT r.k FROM " + src + ") " + x.pick("lazyAndOr", []string{"AND", "OR"}) + " a.v > (SELECT MIN(r.v) FROM " + src2 + ")"}
+		case 4:
+			x.op("udf_body")
+			x.seq++
+			fn := fmt.Sprintf("ulz%d", x.seq)
+			sqls = []string{"DECLARE " + fn + " FUNCTION (@x) AS BEGIN VAR @n; SELECT COUNT(*) INTO @n FROM " + src + " WHERE r.k = @x % 5; RETURN @n; END",
+				"SELECT a.id, " + fn + "(a.k) AS n FROM " + tb.ref() + " a" + x.pick("lazyUdfTail", []string{"", " WHERE " + fn + "(a.v) > 0"})}
+		case 5:
+			x.op("join_on_subquery")
+			sqls = []string{"SELECT a.id, b.id AS bid FROM " + tb.ref() + " a " + x.pick("lazyJoin", []string{"JOIN", "LEFT JOIN", "FULL JOIN"}) + " " + small.ref() + " b ON a.k = b.k AND a.k % 5 IN (SELECT r.k FROM " + src + ")"}
+		case 6:
+			x.op("aggregate_arg_subquery")
+			sqls = []string{"SELECT a.g, SUM((SELECT COUNT(*) FROM " + src + " WHERE r.k = a.k % 5)) AS n FROM " + tb.ref() + " a GROUP BY a.g"}
+		case 7:
+			x.op("orderby_subquery")
+			sqls = []string{"SELECT a.id FROM " + tb.ref() + " a ORDER BY (SELECT MAX(r.v) FROM " + src + " WHERE r.k = a.k % 5), a.id"}
+		case 8:
+			if tgt := tb.dmlTarget(); tgt != "" {
+				x.op("update_where_subquery")
+				sqls = []string{"UPDATE " + tgt + " SET v = v + 1 WHERE k % 5 IN (SELECT r.k FROM " + src + ")"}
+			} else {
+				x.op("in_subquery")
+				sqls = []string{"SELECT a.id FROM " + tb.ref() + " a WHERE a.k % 5 IN (SELECT r.k FROM " + src + ")"}
+			}
+		default:
+			// a remote table that does not exist: every worker fails while loading it
+			x.op("in_subquery")
+			fail = "lazy:http_404"
+			sqls = []string{"SELECT a.id FROM " + tb.ref() + " a WHERE a.k % 5 IN (SELECT r.k FROM {{URL}}/missing/" + x.pick("lazyMissing", []string{"x.csv", "y.json"}) + " r)"}
+		}
+		ops := fw.SortedKeys(x.ops)
+		for k, q := range sqls {
+			st := stmt{SQL: q, Ops: ops}
+			if fail != "" && k == len(sqls)-1 {
+				st.Fail = fail
+			}
+			prog = append(prog, st)
+		}
+		// afterwards the source is cached: read it once more at the top level or in another subquery
+		if fail == "" && fw.Pct(t, "lazyAgain", 35) {
+			q := "SELECT COUNT(*) AS n FROM " + src
+			if fw.Pct(t, "lazyAgainSub", 50) {
+				q = "SELECT a.id FROM " + x.bigTable("lazyOuter2").ref() + " a WHERE EXISTS (SELECT 1 FROM " + src + " WHERE r.k = a.k % 5)"
+			}
+			prog = append(prog, stmt{SQL: q, Ops: append(append([]string{}, ops...), "cached_again")})
+		}
+	}
+	c.Progs = [][]stmt{prog}
+	return c
 }
 
 // opsOf collects the operator labels of a case.
